@@ -14,7 +14,7 @@ Definition of_centre (o : option (Q * Q * Q)) : val :=
 
 Ltac kred :=
   lazy -[qadd qsub qmul qdiv qleb Qltb Qgtb qmin qabs Qeq_bool str_eqb Qopp Qinv Nat.eqb
-         block_surface block_volume block_centre line_projection hstatic sqdist
+         block_surface block_volume block_centre line_projection hstatic sqdist area_step cen_step cen_final
          block_name block_name0 apply_map atm_colname assoc of_oq of_centre
          lname lbot lcen ltop cname csurf carea ccx ccy cnn hcolA hcolB hax hay hbx hby
          layers columns hconns atm_type atm_vol atm_conn convention dmplex tiltx tilty tiltz pcos psin
@@ -254,3 +254,27 @@ Proof.
   unfold vcmp, vin. rewrite in_keys_assoc. unfold apply_map.
   destruct (assoc n bm); reflexivity.
 Qed.
+
+(** ** geometry.polygon_area / polygon_centroid: one pass of the loop, the final expression, and the
+    text around them (what is iterated: [enumerate(polygon)] with p2 = polygon[(j + 1) % n]) *)
+Definition vpt (p : pt) : val := VL [VQ (fst p); VQ (snd p)].
+Definition w_poly (a : Q) (c p1 p2 shift : pt) : world :=
+  [("area", VQ a); ("c", vpt c); ("p1", vpt p1); ("polygon[(j + 1) % n]", vpt p2); ("shift", vpt shift)].
+Theorem tie_polygon_area a c p1 p2 shift :
+  run (w_poly a c p1 p2 shift) gen_polygon_area_step = ORet (VL [VQ (area_step a p1 p2)]) /\
+  run (w_poly a c p1 p2 shift) gen_polygon_area_final = ORet (VQ (qmul (1 # 2) a)) /\
+  gen_polygon_area_glue =
+    ["def polygon_area(polygon):"; "    area = 0.0"; "    n = len(polygon)"; "    if n > 0:";
+     "        polygon -= polygon[0]"; "        for j, p1 in enumerate(polygon):"; "            pass";
+     "    return 0.5 * area"].
+Proof. repeat split; reflexivity. Qed.
+Theorem tie_polygon_centroid a c p1 p2 shift :
+  run (w_poly a c p1 p2 shift) gen_polygon_centroid_step =
+    ORet (let r := cen_step (a, c) p1 p2 in VL [VQ (fst r); vpt (snd r)]) /\
+  run (w_poly a c p1 p2 shift) gen_polygon_centroid_final = ORet (vpt (cen_final (a, c) shift)) /\
+  gen_polygon_centroid_glue =
+    ["def polygon_centroid(polygon):"; "    c, area = (np.zeros(2), 0.0)"; "    n = len(polygon)";
+     "    shift = polygon[0]"; "    polygon -= shift"; "    if n < 3:"; "        return sum(polygon) / n + shift";
+     "    else:"; "        for j, p1 in enumerate(polygon):"; "            pass"; "        area *= 0.5";
+     "        return c / (6.0 * area) + shift"].
+Proof. repeat split; reflexivity. Qed.
